@@ -82,7 +82,8 @@ WriteColl(E, v, open, close) ==
 WriteValue(E, v) ==
    CASE v.t = "null" -> S("NULL")
      [] v.t = "bool" -> IF v.s = S("true") THEN S("TRUE") ELSE S("FALSE")
-     [] v.t \in {"int", "real"} -> v.s
+     [] v.t = "int" -> v.s
+     [] v.t = "real" -> IF DecimalKind(v.s) = "real" THEN v.s ELSE Refuse        \* no numeral for inf / nan in the grammars
      [] v.t = "str" -> WriteStr(E, v.s)
      [] v.t = "date" -> v.s
      [] v.t = "time" -> WriteTime(E, Body(v.s), ZoneOf(v.s))
